@@ -150,6 +150,7 @@ SQRT_CASES = {
     "wall.wall": (("b_lower",), ("b_upper",)),
     "X.wall": (("b_lower", "a_lower"), ("b_upper",)),
     "wall.X": (("b_lower",), ("b_upper", "a_upper")),
+    "X.X": (("b_lower", "a_lower"), ("b_upper", "a_upper")),
     "-.wall": ((), ("b_upper",)),
     "wall.-": (("b_lower",), ()),
 }
@@ -196,7 +197,7 @@ def run_sqrt_extrap(case, side):
 def run_sqrt_mirror(case, zone):
     """s_mirror(N - i) = L - s(i): exchanging the lower and upper parameters gives the
     reflected spacing, inside the region and beyond either wall (C16)."""
-    mirror = {"wall.wall": "wall.wall", "X.wall": "wall.X", "wall.X": "X.wall", "-.wall": "wall.-", "wall.-": "-.wall"}
+    mirror = {"wall.wall": "wall.wall", "X.X": "X.X", "X.wall": "wall.X", "wall.X": "X.wall", "-.wall": "wall.-", "wall.-": "-.wall"}
 
     def run(ctx):
         from hypnotoad.core import equilibrium as E
@@ -211,6 +212,62 @@ def run_sqrt_mirror(case, zone):
         a, b = u(f(i)), u(f2(N - i))
         with spec_mode():
             ctx.oblige(a + b == L, "s(i) + s_mirrored(N-i) = L (%s)" % zone)
+
+    return run
+
+
+def run_sqrt_gradients(case):
+    """Requested end gradients in units of the normalised index: at a wall end
+    ds/diN = b exactly; at an X-point end ds/diN = a/sqrt(distance in iN) + b + o(1), i.e. the
+    function minus its 2a*sqrt(.) term is differentiable at the end with gradient b."""
+
+    def run(ctx):
+        from hypnotoad.core import equilibrium as E
+
+        fn = transform.recompile(E.EquilibriumRegion.getSqrtPoloidalDistanceFunc, report=None)
+        L, N, Nn, kw, f = _sqrt_setup(ctx, case, fn)
+        u = lambda x: x[()] if isinstance(x, numpy.ndarray) else x
+        i = ctx.real("i")
+        ctx.assume(And(i > 0, i < N))
+        s_i = u(f(i))
+        jets = Jets(ctx, {i: {"i": 1}}, const=lambda nm: True)
+        with spec_mode():
+            if "b_lower" in kw:
+                reg = s_i - 2 * kw.get("a_lower", 0.0) * (i / Nn).sqrt()
+                ctx.oblige(jets.at(jets.D(reg, "i"), i, 0.0 * N) * Nn == kw["b_lower"], "lower end: d/diN of the non-singular part = b_lower")
+            if "b_upper" in kw:
+                reg = s_i + 2 * kw.get("a_upper", 0.0) * ((N - i) / Nn).sqrt()
+                ctx.oblige(jets.at(jets.D(reg, "i"), i, N) * Nn == kw["b_upper"], "upper end: d/diN of the non-singular part = b_upper")
+                ctx.oblige(jets.at(jets.D(reg, "i"), i, N) * Nn == 2 * kw["b_upper"], "twin: factor 2", kind="must-fail")
+        return f
+
+    return run
+
+
+def run_mono_mirror(zone):
+    def run(ctx):
+        from hypnotoad.core import equilibrium as E
+
+        fn = transform.recompile(E.EquilibriumRegion.getMonotonicPoloidalDistanceFunc, report=None)
+        L, N, Nn = ctx.real("L"), ctx.real("N"), ctx.real("N_norm")
+        dl, du = ctx.real("d_lower"), ctx.real("d_upper")
+        ctx.assume(And(L > 0, N >= 1, Nn >= 1, dl > 0, du > 0))
+
+        def no_brentq(*a, **k):
+            raise Concave()
+
+        with patched((E, "brentq", no_brentq)):
+            try:
+                f = fn(region(), L, N, Nn, d_lower=dl, d_upper=du)
+                f2 = fn(region(), L, N, Nn, d_lower=du, d_upper=dl)
+            except Concave:
+                ctx.notes.append("concave branch: bounded only")
+                return None
+        i = ctx.real("i")
+        u = lambda x: x[()] if isinstance(x, numpy.ndarray) else x
+        ctx.assume({"inside": And(i >= 0, i <= N), "below": i < 0, "above": i > N}[zone])
+        with spec_mode():
+            ctx.oblige(u(f(i)) + u(f2(N - i)) == L, "monotonic spacing: s(i) + s_mirrored(N-i) = L (%s)" % zone)
 
     return run
 
@@ -400,6 +457,8 @@ def build(S):
         AS = "N/N_norm>0 and the gradient-sign guards of the function hold on the path"
         for case, side in (("wall.wall", "lower"), ("wall.wall", "upper"), ("X.wall", "upper"), ("wall.X", "lower"), ("-.wall", "lower"), ("wall.-", "upper")):
             S.contract("sqrt-extrapolation[%s,%s]" % (case, side), FN_SQRT, run_sqrt_extrap(case, side), expected_exceptions=(ValueError,), raises_ok=sqrt_raise_ok, shape="scalar", feas_timeout_ms=4000, assume_safety=AS)
+        for case in SQRT_CASES:
+            S.contract("sqrt-end-gradients[%s]" % case, FN_SQRT, run_sqrt_gradients(case), expected_exceptions=(ValueError,), raises_ok=sqrt_raise_ok, shape="scalar", feas_timeout_ms=4000, assume_safety=AS)
         add_mirror(S)
         for method in ("sqrt", "monotonic", "linear"):
             for explicit in (False, True):
@@ -412,10 +471,12 @@ def build(S):
 
 def add_mirror(S):
     AS = "N/N_norm>0 and the gradient-sign guards of the function hold on the path"
-    zones = {"wall.wall": ("inside", "below", "above"), "X.wall": ("inside", "above"), "wall.X": ("inside", "below"), "-.wall": ("inside", "below"), "wall.-": ("inside", "above")}
+    zones = {"wall.wall": ("inside", "below", "above"), "X.X": ("inside",), "X.wall": ("inside", "above"), "wall.X": ("inside", "below"), "-.wall": ("inside", "below"), "wall.-": ("inside", "above")}
     for case, zs in zones.items():
         for z in zs:
             S.contract("sqrt-spacing mirror[%s,%s]" % (case, z), FN_SQRT, run_sqrt_mirror(case, z), expected_exceptions=(ValueError,), raises_ok=sqrt_raise_ok, shape="scalar", feas_timeout_ms=4000, assume_safety=AS)
+    for z in ("inside", "below", "above"):
+        S.contract("monotonic-spacing mirror[convex,%s]" % z, FN_MONO, run_mono_mirror(z), shape="scalar", feas_timeout_ms=4000)
 
 
 def post(S):
